@@ -209,6 +209,12 @@ fn hostile_values() -> Vec<Value> {
         out.push(Value::list(vec![Value::cons(a.clone(), 1u32)]));
         out.push(Value::list(vec![Value::symbol("B"), a.clone()]));
         out.push(Value::cons(Value::symbol("A"), a.clone()));
+        // association lists with an improper tail after one or two well-formed entries, and with a non-pair entry in
+        // the middle
+        out.push(Value::append(vec![Value::cons(Value::symbol("a"), a.clone())], a.clone()));
+        out.push(Value::append(vec![Value::cons(Value::string("k"), a.clone()), Value::cons(Value::string("j"), a.clone())], a.clone()));
+        out.push(Value::append(vec![Value::cons(Value::symbol("x"), true), Value::cons(Value::symbol("y"), 1u32)], a.clone()));
+        out.push(Value::list(vec![Value::cons(Value::string("k"), a.clone()), a.clone(), Value::cons(Value::string("j"), a.clone())]));
     }
     out
 }
@@ -303,6 +309,14 @@ pub fn run(cfg: &J) -> J {
         for f in [f32::MIN_POSITIVE, 1e-45f32, f32::MAX, 0.1f32, 16777217.0f32] {
             long_case(9, f.to_abs(), &mut bad);
         }
+        // characters that are special to a text format without being ASCII, or whose low byte is
+        for c in crate::gen::TRUNCATION_SPECIAL {
+            long_case(11, c.to_abs(), &mut bad);
+            long_case(12, format!("a{}b", c).to_abs(), &mut bad);
+            long_case(35, std::iter::once((format!("k{}", c), 1u32)).collect::<BTreeMap<String, u32>>().to_abs(), &mut bad);
+        }
+        long_case(12, crate::gen::TRUNCATION_SPECIAL.iter().collect::<String>().to_abs(), &mut bad);
+        long_case(13, serde_bytes::ByteBuf::from((0..=255u8).collect::<Vec<u8>>()).to_abs(), &mut bad);
         for n in [130usize, 300] {
             long_case(25, (0..n).map(|i| if i % 3 == 0 { String::new() } else { format!("s\u{0}{}", i) }).collect::<Vec<String>>().to_abs(), &mut bad);
             long_case(26, (0..n).map(|i| if i % 5 == 4 { Some(i as i16) } else { None }).collect::<Vec<Option<i16>>>().to_abs(), &mut bad);
